@@ -22,6 +22,8 @@ THEOREMS = [
     _Y + "normalize_youtube_url_total",
     _Y + "record_valid",
     _Y + "extract_video_id_valid",
+    _Y + "record_fields",
+    _Y + "good_of_residual",
     _Y + "reparse_url_partial",
     _Y + "reparse_short",
     _Y + "reparse_video_without_playlist",
@@ -91,12 +93,13 @@ ASSUMPTIONS = [
     "True, as normalize_youtube_url calls the parser), record.url for google drive",
 ]
 UNPROVED = (
-    "youtube: parse(canonical url of r) == r is proved on the region Good (reparse_url_partial): playlist ids without '?', '/', '%'; user "
-    "names / channel ids without '&', '%', '/', '?', '#', TAB/CR/LF and without trailing white space; channel names likewise (trailing "
-    "white space allowed) and not in YOUTUBE_CHANNEL_NAME_BLACKLIST; full for shorts and videos without playlist. Outside Good the statement "
+    "youtube: parse(canonical url of r) == r is proved on the region Residual (reparse_url_partial): playlist ids without '?', '/', '%'; user "
+    "names / channel ids without '&', '%' and without trailing white space; channel names without '&', '%' and not in "
+    "YOUTUBE_CHANNEL_NAME_BLACKLIST (everything else the proof needs - no '/', '?', '#', TAB/CR/LF in a name, a non-empty playlist id without "
+    "'&', '#' - is PROVED to be guaranteed by the parser: record_fields, record_valid); full for shorts and videos without playlist. Outside Residual the statement "
     "is FALSE (fullReparse_false, fullIdempotent_false; known findings KF-C19-YT-1 reserved name behind '@', KF-C19-YT-2 trailing blank, "
     "KF-C19-YT-3 redirect hint inside a field); the remaining excluded shapes ('%' or '/' inside a playlist id, '%' inside a name) are "
-    "explored by the oracle on every run, no failure known. normalize_youtube_url idempotent: full on urls that do not parse, on Good "
+    "explored by the oracle on every run, no failure known. normalize_youtube_url idempotent: full on urls that do not parse, on Residual "
     "otherwise. google: reparse full for public links, for files under 'the id does not end with white space' (fullReparseFile_false: "
     "KF-C19-YT-2). is_youtube_url / is_amp_url / is_google_link / extract_url_from_google_link / is_youtube_*_id: no raise site in the model "
     "(total by construction), their agreement with the code is differential only."
